@@ -465,6 +465,18 @@ F_WHERE = "C07-where-cond-type"
 F_ANGLE = "C07-angle-int-truncated"
 
 
+CANARIES = [
+    {"k": "B", "f": "maximum", "ts": ["i32", "f64"], "a": {"shape": [1], "data": [1], "form": "array"}, "b": {"scalar": 2.5}},
+    {"k": "B", "f": "power", "ts": ["i32", "f64"], "a": {"shape": [1], "data": [63], "form": "array"}, "b": {"scalar": 2.5}},
+    {"k": "T", "f": "where", "ts": ["i32", "i32", "f64"], "a": {"shape": [1], "data": [0], "form": "array"},
+     "b": {"shape": [1], "data": [1], "form": "array"}, "c": {"scalar": 2.5}},
+    {"k": "B", "f": "logical_xor", "ts": ["i32", "i32"], "a": {"scalar": 1}, "b": {"scalar": 0}},
+    {"k": "T", "f": "where", "ts": ["i32", "i8", "i8"], "a": {"shape": [1], "data": [1], "form": "array"},
+     "b": {"shape": [1], "data": [1], "form": "array"}, "c": {"shape": [1], "data": [2], "form": "array"}},
+    {"k": "U", "f": "deg2rad", "ts": ["i32"], "a": {"shape": [2], "data": [180, 90], "form": "array"}},
+]
+
+
 def build_case(e, forms, shapes, ch, outer=False, dtype=None, params=None, default=False):
     kind, op, ts = e["kind"], e["op"], e["types"]
     case = {"k": kind, "f": op, "ts": list(ts)}
@@ -519,6 +531,9 @@ class C07(Prop):
 
     def exhaustive(self, tier):
         npat = {"quick": 3, "thorough": 6}[tier]
+        # minimal in-domain cases of every defect class found so far come first, so that each class is among the
+        # first reported violations (they are ordinary cases of the property, not exemptions)
+        yield from CANARIES
         for e in _entries():
             kind, op, ts, mask = e["kind"], e["op"], e["types"], e["mask"]
             if kind == "B":
@@ -590,7 +605,7 @@ class C07(Prop):
 
     # ---- random ---------------------------------------------------------
     def n_random(self, tier):
-        return 60000 if tier == "quick" else 1000000
+        return 60000 if tier == "quick" else 600000
 
     def strategy(self, tier):
         ents = _entries()
@@ -770,8 +785,9 @@ class C07(Prop):
             mt = case["dtype"]
         if mt is not None and tr != mt:
             return "HARNESS-ERROR reference expression of %s on (%s) has type %s, the conversion model says %s" % (op, ",".join(case["ts"]), tr, mt)
-        xor_known = op == "logical_xor" and F_XOR in self._known() and not case.get("_witness")
-        if tl != tr and not xor_known:
+        # logical_xor: `bool ^ bool` is int in C++ while `bool != bool` is bool; both are legitimate spellings of the scalar
+        # operation, so its result type is not judged against the reference expression (the view must still have the functor's type)
+        if tl != tr and op != "logical_xor":
             return "functor-type: scalar functor of %s on (%s) yields %s, C++ reference expression yields %s" % (op, ",".join(case["ts"]), tl, tr)
         if case.get("noview"):
             return None
@@ -789,7 +805,9 @@ class C07(Prop):
             return "shape: element count %d != %d" % (len(el), len(pairs))
         t = obs["t"]
         ft = is_ft(t) or fl
-        if kind == "T" and op == "where":
+        if cls == "value":
+            # maximum/minimum/fmax/fmin/where: the sign of a zero result is unspecified (std::fmin(0.0,-0.0) may return
+            # either, and the inlined and the libm variant differ), so +0 == -0 here; everything else is compared bitwise
             i = first_diff(el, lib, lambda x, y: same_value(x, y, ft))
         else:
             i = first_diff(el, lib, lambda x, y: same_bits(x, y, ft))
